@@ -328,6 +328,13 @@ void SocketTlsImpl::DriverPending()
   }
 }
 
+bool SocketTlsImpl::DriverReceivePending() const
+{
+  // rest of a decrypted record that did not fit into the previous receive buffer:
+  // there will be no poll event for it as it has already left the socket
+  return (SSL_pending(ssl.get()) > 0);
+}
+
 void SocketTlsImpl::Shutdown()
 {
   // timeout will be honored during waiting and BIO read/write
